@@ -677,6 +677,10 @@ class Output(object):
 
         if self._address_obj:
             self.script_type = self._address_obj.script_type if script_type is None else script_type
+            if self.script_type in ['sig_pubkey', 'p2sh_multisig', 'p2sh_p2wpkh', 'p2sh_p2wsh']:
+                # Address objects of keys carry the type of the unlocking script, an output needs the locking script
+                self.script_type = script_type_default(self._address_obj.witness_type,
+                                                       self.script_type in ['p2sh_multisig', 'p2sh_p2wsh'], True)
             # if not script_type:
             #     script_type = script_type_default(address.witness_type, address.multisig, True)
             self.public_hash = self._address_obj.hash_bytes
